@@ -168,7 +168,8 @@ def spell(site, d):
 # ---------------------------------------------------------------------------------------------------------------
 NAMES = ["foo", "bar", "baz", "qux", "lp", "tmp", "ptr", "cnt", "buf", "src", "dst", "val", "acc", "idx2", "here", "there",
          "alpha", "beta", "gamma", "delta", "one", "two", "data", "code", "main", "init", "done", "next", "prev", "top",
-         "a1", "b2", "c3", "_x", "_tmp", "Mixed", "UPPER", "snake_case", "x9", "ldax", "nopx", "asx", "fromx", "elsey"]
+         "a1", "b2", "c3", "_x", "_tmp", "Mixed", "UPPER", "snake_case", "x9", "ldax", "nopx", "asx", "fromx", "elsey",
+         "trueval", "falsey", "true_1", "False2", "inc16", "sector", "bitmap", "andy", "tax_", "defined_x", "asciiz"]
 RESERVED = set(isa.MNEMONICS) | {"x", "y", "as", "from", "else", "super", "index", "true", "false", "ascii", "petscii", "petscreen", "defined", "segments"}
 NONBRANCH = [m for m in isa.MNEMONICS if m not in isa.BRANCHES]
 IMPLIED = [m for m in NONBRANCH if "imp" in isa.ISA[m]]
@@ -500,7 +501,8 @@ class Gen:
 
     def gen_macrodef(self, scope):
         rng = self.rng
-        nm = self.unique_name("mac")
+        # (also names that begin like a mnemonic or a keyword: `inc16(...)` is an invocation, not `inc` with an operand)
+        nm = self.unique_name(self.rng.choice(["mac", "mac", "inc16", "sector", "bitmap", "rolled", "truemac", "nopper", "staple"]))
         d = Def(nm, "macro", scope)
         d.root_unique = True
         sc = Scope("macro", scope)
